@@ -34,7 +34,7 @@ ANCHORS = [
     "acnportal.acnsim.interface:Interface.remaining_amp_periods",
     "acnportal.algorithms.base_algorithm:BaseAlgorithm.run",
 ]
-REQUIRED = ["schedulers_swapped_mid_run_after_an_exception", "schedulers_attached_with_update_scheduler", "runs_resumed_after_a_scheduler_exception", "deep_copied_algorithm_and_simulator_runs", "interface_queried_at_registration", "invocations_judged", "invocations_without_event", "runs_judged", "mutating_twins", "active_sets_judged",
+REQUIRED = ["schedulers_swapped_from_inside_an_invocation", "schedulers_swapped_mid_run_after_an_exception", "schedulers_attached_with_update_scheduler", "runs_resumed_after_a_scheduler_exception", "deep_copied_algorithm_and_simulator_runs", "interface_queried_at_registration", "invocations_judged", "invocations_without_event", "runs_judged", "mutating_twins", "active_sets_judged",
             "sessions_filtered_as_satisfied", "pilot_queries_judged", "infrastructure_judged", "regime:mr-None", "regime:mr-1",
             "regime:mr-k", "inner:scripted", "inner:uncontrolled", "inner:sorted"]
 BUDGET_S = {"quick": 240, "thorough": 3000}
@@ -60,7 +60,8 @@ def cases(seed, tier):
             d["swap_from"] = {"mr": rng.choice([1, 2, 3, 7, None]), "json": rng.random() < 0.4}
     for i in range(n // 8):
         d = gen.scenario(rng, sched="scripted", noise_p=0.0, mr=rng.choice([2, 3, 4, 5, 7, None, 1]), recompute_p=0.2)
-        out.append({"desc": d, "swap_mid": {"at": rng.choice([1, 2, 2, 3, 4]), "mr2": rng.choice([1, 2, 3, 5, None]), "json": rng.random() < 0.35}})
+        out.append({"desc": d, "swap_mid": {"at": rng.choice([1, 2, 2, 3, 4]), "mr2": rng.choice([1, 2, 3, 5, None]), "json": rng.random() < 0.35,
+                                             "inside": rng.random() < 0.35}})
     return out
 
 
@@ -274,12 +275,19 @@ def _run_swap_mid(case, obs):
             t = self.interface.current_time
             if self.fail_at is not None and not st_["fired"] and len(logs[self.name]) == self.fail_at:
                 st_["fired"], st_["t"] = True, t
-                raise InjectedFault(f"period {t}")
+                if sw.get("inside"):
+                    # hand-over from inside the invocation (reentrancy): this call completes, the successor takes over from the
+                    # next period on, with its own interval
+                    st_["sim"].update_scheduler(st_["B"])
+                    st_["inside_done"] = True
+                else:
+                    raise InjectedFault(f"period {t}")
             logs[self.name].append(t)
             return gen.scripted_schedule(sd, netd, t)[0]
 
     mrA, mrB = sd.get("mr"), sw["mr2"]
     sim, evs = build.build_sim(d, scheduler=S(mrA, "A", sw["at"]))
+    st_["sim"], st_["B"] = sim, S(mrB, "B", None)
     wit = dict(scenario=d, swap_mid=sw)
     with _w.catch_warnings():
         _w.simplefilter("ignore")
@@ -294,22 +302,25 @@ def _run_swap_mid(case, obs):
             obs.ev("swap_mid_fault_never_reached_not_judged")
             return
         tf = st_["t"]
-        if sw.get("json"):
-            sim = Simulator.from_json(sim.to_json())
-        sim.update_scheduler(S(mrB, "B", None))
-        try:
-            sim.run()
-        except Exception as e:
-            obs.violate("run_raised", f"after update_scheduler at period {tf}: {type(e).__name__}: {e}", **wit)
-            return
-    obs.ev("schedulers_swapped_mid_run_after_an_exception")
+        if not sw.get("inside"):
+            if sw.get("json"):
+                sim = Simulator.from_json(sim.to_json())
+            sim.update_scheduler(st_["B"])
+            try:
+                sim.run()
+            except Exception as e:
+                obs.violate("run_raised", f"after update_scheduler at period {tf}: {type(e).__name__}: {e}", **wit)
+                return
+    obs.ev("schedulers_swapped_from_inside_an_invocation" if sw.get("inside") else "schedulers_swapped_mid_run_after_an_exception")
     T = sim.iteration
     evt = simrun.event_times(d)
     expA, expB, last = [], [], None
+    inside = bool(sw.get("inside"))
     for t in range(T):
-        mr = mrA if t < tf else mrB
-        if t in evt or (mr is not None and (last is None or t - last >= mr)) or (t == tf and mrA is not None and (last is None or t - last >= mrA) and False):
-            (expA if t < tf else expB).append(t)
+        # swap after an exception: B decides from the faulted period on; swap from inside: A completes the period of the swap
+        mr = mrA if (t < tf or (inside and t == tf)) else mrB
+        if t in evt or (mr is not None and (last is None or t - last >= mr)):
+            (expA if (t < tf or (inside and t == tf)) else expB).append(t)
             last = t
     obs.evals = len(expA) + len(expB)
     if logs["A"] != expA or logs["B"] != expB:
